@@ -697,7 +697,7 @@ def contexts(draw, mode="app", n=3):
 @st.composite
 def one_context(draw, mode="app"):
     i = lambda lo, hi: draw(st.integers(lo, hi))  # noqa
-    nargs = i(0, 5)
+    nargs = i(4, 7) if i(0, 9) else i(0, 3)  # mostly enough arguments for the constant indices 0..3 the generators use
     args = []
     for _ in range(nargs):
         k = i(0, 3)
@@ -705,7 +705,7 @@ def one_context(draw, mode="app"):
             args.append(i(0, 2**64 - 1).to_bytes(8, "big") if i(0, 1) else i(0, 300).to_bytes(8, "big"))
         else:
             args.append(draw(st.binary(max_size=12)))
-    gsize = i(1, 3)
+    gsize = 3 if i(0, 9) else i(1, 2)
     group = []
     for gi in range(gsize):
         t = {
@@ -723,7 +723,7 @@ def one_context(draw, mode="app"):
             "XferAsset": draw(st.sampled_from([0] + ASSET_IDS)),
             "AssetAmount": i(0, 50),
             "ApplicationArgs": list(args) if gi == 0 or i(0, 1) else [],
-            "Accounts": [ADDRS[i(0, 3)] for _ in range(i(0, 2))],
+            "Accounts": [ADDRS[i(0, 3)] for _ in range(i(2, 3) if i(0, 9) else i(0, 1))],
             "Applications": [draw(st.sampled_from(APP_IDS)) for _ in range(i(0, 2))],
             "Assets": [draw(st.sampled_from(ASSET_IDS)) for _ in range(i(0, 2))],
         }
@@ -758,5 +758,5 @@ def one_context(draw, mode="app"):
         "GroupID": bytes([0xBB]) * 32, "OpcodeBudget": 700, "CallerApplicationID": draw(st.sampled_from([0, 2002])),
         "CallerApplicationAddress": bytes(32),
     }
-    lsig_args = [draw(st.binary(max_size=10)) for _ in range(i(0, 4))]
+    lsig_args = [draw(st.binary(max_size=10)) for _ in range(i(4, 5) if i(0, 9) else i(0, 3))]
     return Ctx(mode, group, gidx, lsig_args, globals_, 1001, gstate, lstate, other, assets, holdings, apps, accounts, {})
